@@ -567,6 +567,68 @@ fn run_case(rng: &mut Rng, out: &mut Out, ctl: &Arc<Ctl>, dir: &str, idx: u64, f
     for _ in 0..64 { rng.next(); }
 }
 
+/// every interleaving (at the hooked granularity) of a small program set: two or three threads
+/// with one or two calls each on one key of a memory-only store.  Schedules are enumerated in
+/// lexicographic order of the thread chosen at each step, re-executing from scratch each time.
+fn exhaust_set(rng: &mut Rng, out: &mut Out, ctl: &Arc<Ctl>, dir: &str, idx: u64, cap: u64) {
+    let family = 1 + idx % 3;
+    let n = if rng.chance(1, 4) { 3 } else { 2 };
+    let key = format!("x{}", idx).into_bytes();
+    let kind = match family { 1 => Kind::Num, 2 => Kind::Json, _ => Kind::Raw };
+    let mut progs: Vec<Vec<Op>> = (0..n).map(|_| (0..rng.range(1, 2)).map(|_| gen_op(rng, family)).collect()).collect();
+    if rng.chance(2, 3) {
+        progs[0].insert(0, Op::Ins { v: Val { kind, n: 1 }, ts: None, bytes: false });
+    }
+    let cfg = Config { mem: true, cache: false };
+    let mut prefix: Vec<usize> = vec![];
+    let mut schedules = 0u64;
+    loop {
+        let mut pcs = vec![0usize; n];
+        let mut trace: Vec<(usize, Vec<usize>)> = vec![];
+        {
+            let mut next = |busy: &[bool]| -> Option<Step> {
+                let live: Vec<usize> = (0..n).filter(|t| busy[*t] || pcs[*t] < progs[*t].len()).collect();
+                if live.is_empty() {
+                    return None;
+                }
+                let i = trace.len();
+                let t = if i < prefix.len() && live.contains(&prefix[i]) { prefix[i] } else { live[0] };
+                trace.push((t, live));
+                if busy[t] {
+                    Some(Step::Run(t, key.clone()))
+                } else {
+                    let op = progs[t][pcs[t]].clone();
+                    pcs[t] += 1;
+                    Some(Step::Call(t, key.clone(), op))
+                }
+            };
+            drive(out, ctl, dir, idx, &cfg, n, true, &mut next);
+        }
+        schedules += 1;
+        out.count("exhaustive schedule");
+        // next schedule in lexicographic order: bump the last step that still has a larger alternative
+        let mut bumped = false;
+        for i in (0..trace.len()).rev() {
+            let (chosen, live) = &trace[i];
+            if let Some(alt) = live.iter().find(|t| **t > *chosen) {
+                prefix = trace[..i].iter().map(|x| x.0).collect();
+                prefix.push(*alt);
+                bumped = true;
+                break;
+            }
+        }
+        if !bumped {
+            out.count("exhaustive set complete");
+            break;
+        }
+        if schedules >= cap {
+            out.count("exhaustive set capped");
+            break;
+        }
+        if out.failures.iter().any(|f| f.starts_with("C18")) { break; }
+    }
+}
+
 /// re-execute a recorded schedule (the `conc …` lines of one case)
 fn replay_case(out: &mut Out, ctl: &Arc<Ctl>, dir: &str, lines: &[String]) {
     let head: Vec<&str> = lines[0].split(' ').collect();
@@ -1192,6 +1254,9 @@ fn main() {
         if !lines.is_empty() {
             replay_case(&mut out, &ctl, &args.out, &lines);
         }
+    }
+    for i in 0..get("exhaust", 0) {
+        exhaust_set(&mut rng, &mut out, &ctl, &args.out, i, get("cap", 300));
     }
     for i in 0..(if args.replay.is_some() { 0 } else { cases }) {
         run_case(&mut rng, &mut out, &ctl, &args.out, i, i % 4);
